@@ -1,6 +1,8 @@
 package idr
 
 import (
+	"github.com/jf-tech/go-corelib/caches"
+
 	zz "github.com/jf-tech/omniparser/zzverif"
 )
 
@@ -80,4 +82,52 @@ func C12ParIDs() {
 			zz.Assert(held[t][0].FirstChild == held[t][1] && held[t][1].Parent == held[t][0], "each thread's tree is intact")
 		}
 	}
+}
+
+// C14ParQuery: two goroutines evaluate the same cached compiled xpath (process-wide cache keyed
+// by the expression text) on their own trees through MatchAny / MatchAll / MatchSingle, as the
+// format readers do with the target xpath: no data race on the shared compiled expression
+// (it must be cloned per query) and each thread's answers equal the serial answers.
+func C14ParQuery() {
+	exprs := []string{"x='1'", ".[x='1']", "x", "count(x)>1"}
+	expr := exprs[zz.NondetChoice("expr", len(exprs))]
+	mk := func(tag string) *Node {
+		t := CreateNode(ElementNode, "T")
+		n := 1 + zz.NondetChoice(tag+".n", 2)
+		for i := 0; i < n; i++ {
+			x := CreateNode(ElementNode, "x")
+			AddChild(t, x)
+			v := zz.NondetBytesN(tag+".v", 1)
+			zz.Assume(zz.ByteIn(v[0], "12"))
+			AddChild(x, CreateNode(TextNode, string(v)))
+		}
+		return t
+	}
+	ta, tb := mk("a"), mk("b")
+	for it, n := 0, zz.Stress(300); it < n; it++ {
+		var ma, mb bool
+		var ca, cb int
+		zz.Par(func() {
+			e, err := caches.GetXPathExpr(expr)
+			if err == nil {
+				ma = MatchAny(ta, e)
+			}
+			ns, _ := MatchAll(ta, "x")
+			ca = len(ns)
+		}, func() {
+			e, err := caches.GetXPathExpr(expr)
+			if err == nil {
+				mb = MatchAny(tb, e)
+			}
+			ns, _ := MatchAll(tb, "x")
+			cb = len(ns)
+		})
+		e, err := caches.GetXPathExpr(expr)
+		zz.Assume(err == nil)
+		zz.Assert(ma == MatchAny(ta, e) && mb == MatchAny(tb, e), "each goroutine's answer equals the serial answer")
+		na, _ := MatchAll(ta, "x")
+		nb, _ := MatchAll(tb, "x")
+		zz.Assert(ca == len(na) && cb == len(nb), "each goroutine's selection equals the serial selection")
+	}
+	zz.Cover("joined")
 }
